@@ -50,11 +50,11 @@ func Verif_C01_server_close_and_delete() { srvCloseAndDelete() }
 
 func srvCloseAndDelete() {
 	verifRaceDetect(true)
-	d := 1
+	d := 2
 	if verifTier() >= 1 {
-		d = 2
+		d = 3
 	}
-	verifNote("Server with one listener and one peer; the peer is added before or after Serve (symbolic), is active (dials, session Established) or passive (inbound connection accepted through the listener, Established); then Server.Close or Server.DeletePeer is called while, symbolically, one more inbound connection is being offered to the listener: all schedules with at most 1 (quick) / 2 (thorough) delays; happens-before race detection; afterwards Serve must have returned ErrServerClosed (Close) and Serve after Close must return ErrServerClosed")
+	verifNote("Server with one listener and one peer; the peer is added before or after Serve (symbolic), is active (dials, session Established) or passive (inbound connection accepted through the listener, Established); then Server.Close or Server.DeletePeer is called while, symbolically, one more inbound connection is being offered to the listener: all schedules with at most 2 (quick) / 3 (thorough) delays (sleep-set reduced); happens-before race detection; afterwards Serve must have returned ErrServerClosed (Close) and Serve after Close must return ErrServerClosed")
 	e := newSrvEnv()
 	e.pl.yieldInCallbacks = true
 	addBefore := verifChoose("add-before-serve", 2) == 1
